@@ -7,6 +7,7 @@ import "crypto/tls"
 func init() {
 	vpRegister("VPH_C30_floor", VPH_C30_floor)
 	vpRegister("VPH_C30_rotation", VPH_C30_rotation)
+	vpRegister("VPH_C30_listen_after_update", VPH_C30_listen_after_update)
 }
 
 // vpCertFiles returns paths of a server certificate, its key and a CA file. In the engine
@@ -89,4 +90,56 @@ func VPH_C30_rotation() {
 	after, _ := listenerCfg.GetCertificate(nil)
 	vpKnown("K-C30-reload-on-a-clone", true)
 	vpAssert(vpCertID(after) != vpCertID(before), "new-handshakes-present-the-reloaded-certificate")
+}
+
+// VPH_C30_listen_after_update: the configuration a listener is started with is the one in force. A
+// server is started with TLS and no client certificates; the settings are then tightened through
+// the documented read-modify-write (GetExportOptions, require and verify client certificates against
+// a CA, UpdateExportOptions) and a listener is started again: the tls.Config handed to tls.Listen the
+// second time requires and verifies client certificates against the CA pool and keeps the version floor.
+func VPH_C30_listen_after_update() {
+	cert, key, ca := vpCertFiles()
+	fs := vpStdTree()
+	env := vpServer(fs, ExportOptions{TLS: &TLSConfig{Enabled: true, CertFile: cert, KeyFile: key,
+		MinVersion: tls.VersionTLS12, MaxVersion: tls.VersionTLS13, ClientAuth: tls.NoClientCert}})
+	l1 := &vpListener{addr: "127.0.0.1:2049", done: make(chan struct{})}
+	vpListeners = map[string]*vpListener{"": l1}
+	vpTLSListenConfigs = nil
+	defer func() { vpListeners = nil }()
+	start := func() *tls.Config {
+		s, err := NewServer(ServerOptions{Name: "vp", Port: 2049, Hostname: "localhost", UseRecordMarking: true})
+		vpAssert(err == nil, "server-created")
+		s.SetHandler(env.nfs)
+		before := len(vpTLSListenConfigs)
+		vpAssert(s.Listen() == nil, "listen-starts")
+		vpAssert(len(vpTLSListenConfigs) == before+1, "tls-listener-created")
+		if len(vpTLSListenConfigs) != before+1 {
+			return nil
+		}
+		return vpTLSListenConfigs[before]
+	}
+	c1 := start()
+	if c1 == nil {
+		return
+	}
+	vpAssert(c1.ClientAuth == tls.NoClientCert, "first-listener-as-configured")
+	want := tls.ClientAuthType(vpChoose("tightened-to", 3, 4)) // VerifyClientCertIfGiven or RequireAndVerifyClientCert
+	o := env.nfs.GetExportOptions()
+	vpAssert(o.TLS != nil, "tls-settings-reported")
+	o.TLS.ClientAuth = want
+	o.TLS.CAFile = ca
+	vpAssert(env.nfs.UpdateExportOptions(o) == nil, "tightening-accepted")
+	vpAssert(env.nfs.GetExportOptions().TLS.ClientAuth == want, "tightening-reported")
+	c2 := start()
+	if c2 == nil {
+		return
+	}
+	vpAssert(c2.ClientAuth == want, "listener-started-after-the-update-verifies-client-certificates")
+	vpAssert(c2.ClientCAs != nil, "listener-started-after-the-update-has-the-CA-pool")
+	eff := c2.MinVersion
+	if eff == 0 {
+		eff = tls.VersionTLS12
+	}
+	vpAssert(eff >= tls.VersionTLS12, "listener-started-after-the-update-keeps-the-floor")
+	l1.Close()
 }
